@@ -106,19 +106,20 @@ KIND_MODE = {
 GRAMMAR_CODE = {
     'expr': ['zz', 'a + b', 'a if b else c', 'lambda q: q', '(yield)', 'a, b', '(c, d)', 'f(x)\n.g', '[1,\n 2]',
              'not a', 'a or b', 'x := 1', 'await w', '-a ** b', 'a < b < c', '"s" "t"', '*st', '{**d}', '(i for i in j)',
-             'a.b[c]', 'f"{x}"', '1 .real', 'yield z', 'yield from z', '(\n a\n)', 'a # c\n+ b', '"""m\nl"""'],
+             'a.b[c]', 'f"{x}"', '1 .real', 'yield z', 'yield from z', '(\n a\n)', 'a # c\n+ b', '"""m\nl"""',
+             'é, ü', '"日本", z', 'ñ if ü else é', '"é" "ü"', 'é.ü(ñ)', 'lambda é: "日本"', 'é\n, ü', '[é,\n "日本"]'],
     'expr1': ['nm', 'a.b', 'f(x)', '(a + b)', 'a[0]', '(lambda: 0)', 'a if b else c', 'x or y', 'await z', '-n', '[e]'],
     'dictval': ['vv', 'a + b', 'lambda: 0', 'a if b else c', '(x, y)'],
-    'target': ['tgt', 't.attr', 't[0]', '(p, q)', '[p, *q]'],
+    'target': ['tgt', 't.attr', 't[0]', '(p, q)', '[p, *q]', 'é, ü', 'ñ.é'],
     'starred': ['*s2', '*(a or b)', 'plain'],
     'stmt': ['pass', 'x = 1', 'if c:\n    d\nelse:\n    e', 'for i in j: pass', 'def g(): return 1', 'return', 'a; b',
              'with a as b:\n    # cmt\n    pass', 'class K: pass', '@d\ndef h(a=1): pass', 'try: pass\nfinally: pass',
              'x: int = 2', 'del q', 'import m', 'while t: break', '"""doc"""', 'a = b  # trailing', '# lead\nz = 1',
              'async def ag(): await k', 'match m:\n    case 1: pass', 'raise E from c', 'global gg', 'assert t, m',
-             'if u: pass\nelif v: pass'],
+             'if u: pass\nelif v: pass', 'é = "日本", ü  # ñ', 'ü: int = é'],
     'handler': ['except E as e: pass', 'except (A, B):\n    raise', 'except: pass'],
     'case': ['case 1: pass', 'case [a, *b] if b:\n    pass', 'case {"k": v}: pass', 'case _: pass'],
-    'pattern': ['1', 'x', '[a, b]', 'C(p, q=r)', 'a | b', '{"k": v, **r}', '(u as w)', '*s', 'None', 'a.b', '-1'],
+    'pattern': ['é, ü', '"日本" | ü', '1', 'x', '[a, b]', 'C(p, q=r)', 'a | b', '{"k": v, **r}', '(u as w)', '*s', 'None', 'a.b', '-1'],
     'keyword': ['k=1', '**kw', 'k = a or b', 'k=(yield)'],
     'alias_from': ['n1', 'n2 as m2'],
     'alias_import': ['p.q', 'p.q as r', 's'],
@@ -201,9 +202,15 @@ def donor_codes(donor_root, kinds_needed, rnd, limit=40):
     return out
 
 
-def gen_step(rnd, root, donors, weights=None, norm=True, ops=None, with_par=False):
+def op_is_comment(ops):
+    return 'put_line_comment' in ops
+
+
+def gen_step(rnd, root, donors, weights=None, norm=True, ops=None, with_par=False, kinds=None):
     """Pick a target and an op. Returns step dict or None."""
     cands = candidates(root.a)
+    if kinds:
+        cands = [c for c in cands if c[5] in kinds]
     if not cands:
         return None
     # inverse-frequency weighting over (type, field) cells
@@ -227,6 +234,8 @@ def gen_step(rnd, root, donors, weights=None, norm=True, ops=None, with_par=Fals
         pool += PAR_OPS
     if ops:
         pool = [o for o in pool if o in ops] or pool
+        if op_is_comment(ops):
+            step_code_pool = ['cm', '# a much longer comment text', 'é', 'x']
     op = rnd.choice(pool)
     form = rnd.choice(['src', 'ast', 'fst'])
     ckind = 'expr' if kind in ('expr1', 'dictval') else kind
@@ -244,7 +253,7 @@ def gen_step(rnd, root, donors, weights=None, norm=True, ops=None, with_par=Fals
         more = [rnd.choice(src_pool) for _ in range(k2)] if src_pool else ['zz']
         step['multi'] = more
     if op == 'put_line_comment':
-        step['code'] = rnd.choice([None, 'cm', '# cm2', 'é comment', ''])
+        step['code'] = rnd.choice([None, 'cm', '# cm2', 'é comment', '', 'a much longer comment than before', 'x'])
     if op == 'put_docstr':
         step['code'] = rnd.choice([None, 'doc', 'multi\nline\n', 'quote " \' \\ é', '"""'])
     return step
